@@ -42,13 +42,17 @@ def reduce_program(src, cfg, max_rounds=6, **kw):
     return reduce_text(src, fails, max_rounds)
 
 
-def reduce_text(src, fails, max_rounds=200):
+def reduce_text(src, fails, max_rounds=200, max_seconds=30):
     """fails(text) -> failure class (hashable, not None) or None; keeps the class constant"""
+    import time
+    deadline = time.time() + max_seconds
     want = fails(src)
     if want is None:
         return src
     lines = src.rstrip("\n").split("\n")
     for _ in range(max_rounds):
+        if time.time() > deadline:
+            break
         changed = False
         # larger blocks first
         for (i, j) in sorted(_blocks(lines), key=lambda r: r[0] - r[1]):
